@@ -212,6 +212,9 @@ def step (st : State) (w : List String) : State × String :=
       | none => some []
     match st.sys.proc, parseRefs fs, parseRefs sg, xs with
     | some live, some ks, some ss, some xs =>
+      -- a DNSKEY of another owner name in the trust set (only reachable when an anchor signed it for
+      -- 30 days): verifyRootKeys' DS step over mixed owner names is not modelled
+      if live.any (fun k => k.owner != 0) then (st, "unmodelled") else
       (st, if validates live { keys := ks, signers := ss, extras := xs } then "answered ad=t" else "refused")
     | _, _, _, _ => (st, "bad-op")
   | ["autota", "killrun", fs, sg, k] =>
